@@ -35,6 +35,8 @@ PROPS = {f"C{n:02d}": f"vf.props.c{n:02d}" for n in range(1, 21)}
 SHARD_ENV = {
     # C03 explores both reinterpreters and the type-checking interpreter: the flags are read at import
     "C03": lambda k: {"FUNSOR_USE_TCO": str(k % 2), "FUNSOR_TYPECHECK": str((k // 2) % 2)},
+    # C06: every fourth shard runs with the optional re-check of declared types under reflect switched on
+    "C06": lambda k: {"FUNSOR_TYPECHECK": "1" if k % 4 == 3 else "0"},
 }
 
 
